@@ -496,6 +496,7 @@ var (
 	spelledRe = regexp.MustCompile(`\{[UAIGRSXKLN][0-9]\}`)
 	badTmplRe = regexp.MustCompile(`\{[EP][0-9]?\}`)
 	funcRe    = regexp.MustCompile(`\{[RSXKLN][0-9]?\}`)
+	assertRe  = regexp.MustCompile(`\|a[0-9]+(;|$)`)
 )
 
 var uuidRe = regexp.MustCompile(`[0-9a-f]{8}-[0-9a-f]{4}-4[0-9a-f]{3}-[89ab][0-9a-f]{3}-[0-9a-f]{12}`)
@@ -750,6 +751,24 @@ func class(input, obs string) string {
 		if strings.Contains(obs, "/400") {
 			c += "/400"
 		}
+		if kv["pas"] != "" || kv["lim"] != "" || kv["cc"] != "" {
+			c += "/passes-limit-cases"
+		}
+		if strings.Contains(kv["e"], "!") {
+			c += "/undecodable-line"
+		}
+		if strings.Contains(obs, "perr=") && !strings.Contains(obs, "perr=ok") {
+			c += "/provider-stops"
+		}
+		if strings.Contains(strings.ToLower(kv["e"]), "x-fault:") {
+			c += "/refused-by-server"
+		}
+		if strings.Contains(kv["e"], "*") {
+			c += "/big"
+		}
+		if kv["sce"] == "1" {
+			c += "/pool-size-boundary"
+		}
 	case "scen":
 		c += "/" + kv["run"] + "/n" + kv["n"]
 		if strings.Contains(kv["scns"], "sleep") {
@@ -769,6 +788,15 @@ func class(input, obs string) string {
 		}
 		if funcRe.MatchString(kv["calls"]) {
 			c += "/template-funcs"
+		}
+		if assertRe.MatchString(kv["calls"]) {
+			c += "/assert"
+		}
+		if strings.Contains(strings.ToLower(kv["calls"]), "x-fault:") || strings.Contains(kv["calls"], "pass:s.x") {
+			c += "/refused-by-server"
+		}
+		if strings.Contains(kv["calls"], "x-shadow") || strings.Contains(kv["calls"], "x-later") {
+			c += "/name-defined-twice"
 		}
 	}
 	return c
